@@ -47,6 +47,8 @@ TERMS = [
     ('"€" | "カ"', "€カ", ["€", "カ"]),
     ("/[😊☃]/", "😊☃", ["😊", "☃"]),
 ]
+# terminals whose meaning depends on the charset option (negated class, dot): only used with charset=<set>
+NEG_TERMS = [("/[^a]/", "bé", ["b", "é"]), ("/./", "abé", ["a", "b", "é"]), ("/[^b]+/", "aé", ["a", "é", "aé"]), ("/a[^é]/", "ab", ["ab", "aa"])]
 IGNORES = [('" "', " ", [" "]), ("/[ ]+/", " ", [" ", "  "]), ('"_"', "_", ["_"]), ("/[ _]/", " _", [" ", "_"])]
 
 
@@ -63,7 +65,7 @@ def gates(tier):
         "min_decided": {APIS[0]: 15000 * k, APIS[1]: 10000 * k},
         "shapes": {c: 5 * k for c in ["ignore", "no-ignore", "multibyte>=2", "ci-terminal", "regex-terminal", "ebnf:star", "ebnf:plus",
                                       "ebnf:opt", "ebnf:alt", "recursive-rule", "bytes:truncated", "accepted-samples",
-                                      "ci:multichar-case-mapping", "names:suffix-style", "anonymous-literals"]},
+                                      "ci:multichar-case-mapping", "names:suffix-style", "anonymous-literals", "option:charset-set", "ignored-terminal-in-rule"]},
         "min_hashseeds": 2,
     }
 
@@ -75,6 +77,9 @@ def gen_case(rng, spec):
         terms = rng.sample(mb, 2) + rng.sample(TERMS, nterm - 2)
     else:
         terms = rng.sample(TERMS, nterm)
+    use_charset = rng.random() < 0.3
+    if use_charset:
+        terms = rng.sample(NEG_TERMS, rng.randint(1, 2)) + terms[: max(1, nterm - 1)]
     # distinct definitions only
     seen, tl = set(), []
     for t in terms:
@@ -92,6 +97,7 @@ def gen_case(rng, spec):
     nrules = rng.randint(0, 2)
     rnames = ["start"] + [f"r{i}" for i in range(nrules)]
 
+    ign_in_rules = bool(ign) and rng.random() < 0.35  # the ignored terminal is ALSO an ordinary symbol of some rule
     anon = []
     if rng.random() < 0.3:
         # anonymous literals: Lark names them after their text ("x" -> X, "x_1" -> X_1, "=" -> EQUAL)
@@ -103,6 +109,8 @@ def gen_case(rng, spec):
             s = "(" + alt(d - 1) + ")"
         elif anon and r < 0.4:
             s = rng.choice(anon)
+        elif ign_in_rules and r < 0.5:
+            s = "WS"
         elif r < 0.75:
             s = rng.choice(names)
         else:
@@ -144,7 +152,10 @@ def gen_case(rng, spec):
     for a in anon:
         lit = a.strip('"')
         examples[{"x": "X", "x_1": "X_1", "x_2": "X_2", "x_0": "X_0", "=": "EQUAL"}[lit]] = [lit]
-    return {"text": text, "alphabet": alphabet, "examples": examples,
+    charset = None
+    if use_charset:
+        charset = sorted(set(alphabet) | set(chars) | {c for e in examples.values() for x in e for c in x} | {"a", "b", "é"})
+    return {"text": text, "alphabet": alphabet, "examples": examples, "charset": charset,
             "maxlen": 3 if spec.get("tier") == "quick" else 4, "sseed": rng.randrange(1 << 30)}
 
 
@@ -218,6 +229,8 @@ def run_case(case, ctx):
         feats.add("regex-terminal")
     if "ß" in text:
         feats.add("ci:multichar-case-mapping")
+    if any(nm == "WS" and t for h, body in O.R for nm, t in body):
+        feats.add("ignored-terminal-in-rule")
     if any(("_" in nm) for nm in O.T if nm != "WS" and not nm.startswith("__")):
         feats.add("names:suffix-style")
     if any(nm in ("X", "X_0", "X_1", "X_2", "EQUAL") for nm in O.T) and '"x' in text or '"="' in text:
@@ -239,9 +252,13 @@ def run_case(case, ctx):
         ok, L = ctx.call(APIS[0], case, LarkStuff, text)
         if not ok:
             return
+        kw = {}
+        if case.get("charset"):
+            kw["charset"] = set(case["charset"])
+            ctx.shape["option:charset-set"] += 1
         for rec in ("right", "left"):
             c1 = dict(case, recursion=rec)
-            ok, G = ctx.call(APIS[0], c1, L.char_cfg, recursion=rec)
+            ok, G = ctx.call(APIS[0], c1, L.char_cfg, recursion=rec, **kw)
             if ok:
                 ctx.check(APIS[0], not (set(G.N) & set(G.V)), "char_cfg/N-and-V-overlap", c1, {"overlap": [repr(x) for x in list(set(G.N) & set(G.V))[:5]]})
                 for s in cands:
@@ -250,7 +267,7 @@ def run_case(case, ctx):
                         have = v > 0
                         mech = "char_cfg/" + ("accepts-underivable-string" if have and not want[s] else "rejects-derivable-string")
                         ctx.check(APIS[0], have == want[s], mech, dict(c1, s=s), {"s": s, "weight": v, "reference_accepts": want[s]})
-            ok, B = ctx.call(APIS[1], c1, L.byte_cfg, recursion=rec)
+            ok, B = ctx.call(APIS[1], c1, L.byte_cfg, recursion=rec, **kw)
             if ok:
                 ctx.check(APIS[1], not (set(B.N) & set(B.V)), "byte_cfg/N-and-V-overlap", c1, {"overlap": [repr(x) for x in list(set(B.N) & set(B.V))[:5]]})
                 bwant = {}
@@ -288,6 +305,8 @@ def run_case(case, ctx):
                 for x in sorted(extra)[:400]:
                     try:
                         dec = x.decode("utf-8")
+                        if case.get("charset") and not set(dec) <= set(case["charset"]):
+                            continue  # negated classes / dot are relative to the charset: re is not the reference there
                         bwant[x] = O.accepts(dec)
                     except UnicodeDecodeError:
                         bwant[x] = False
